@@ -1,9 +1,12 @@
 package probe
 
-// C20-R2 reproduction: NewSamehadaDB deletes the log (GCLogFile) before the pages recovered by
-// Redo/Undo are flushed. A crash between the two loses committed work for good.
-// The first restart is replayed here statement by statement in the order NewSamehadaDB uses
-// (samehada.go: Redo, Undo, GCLogFile, ... FlushAllPages) and is cut right after GCLogFile.
+// C20-R2 reproduction: NewSamehadaDB used to delete the log (GCLogFile) before the pages recovered by
+// Redo/Undo were flushed. A crash between the two lost committed work for good.
+// The first restart is replayed here statement by statement and is cut right after GCLogFile.
+// A replay cannot follow the source, so the statement order is chosen here: by default the order
+// of the repaired NewSamehadaDB (Redo, Undo, FlushAllPages, GCLogFile), which keeps the rows;
+// with PROBE_OLD_ORDER=1 the order of the pinned commit (Redo, Undo, GCLogFile, ... FlushAllPages),
+// which loses them (that run is the evidence of the defect).
 import (
 	"os"
 	"testing"
@@ -37,7 +40,7 @@ func TestC20CrashBetweenGCLogFileAndFlush(t *testing.T) {
 	if isUndoNeeded {
 		lr.Undo(txn)
 	}
-	if os.Getenv("PROBE_FLUSH_FIRST") != "" { // what the repaired order does
+	if os.Getenv("PROBE_OLD_ORDER") == "" { // what the repaired order does
 		shi.GetBufferPoolManager().FlushAllPages()
 	}
 	shi.GetDiskManager().GCLogFile()
